@@ -42,6 +42,8 @@ def gen_set(rng):
     texts = ["Hello there", "two  words", "R&D <dept>", "it's \"q\"", "-->", "a & b", "Ünï çødé", "1", "x",
              "write &lt; for less", "&amp;lt; twice", "&apos; &quot; &nbsp;", "&#60;b&#62;",
              "Press <b> to go back, <i> for info", "a <c and c> d", "<v Bob> said", "<00:01.000> later"]
+    from props import samples
+    texts = texts + [" ".join(t.split()) for t in samples.rich_lines(rng, 8, pipe_ok=False)]
     # (language codes one of which is a prefix of the other, in both orders)
     langs = rng.choice([["en-US"], ["fr-FR"], ["en-US", "fr-FR"], ["fr-FR", "en-US"], ["en-US", "en"], ["en", "en-US"]])
     caps = {}
